@@ -162,6 +162,15 @@ class P:
             line = "producer %s %d %d F %s M %s" % (proto, retry, gap, " ".join("%d %d %d" % f for f in faults), " ".join(hx(m) for m in msgs))
             self.meta[line] = (proto, retry, gap, faults, msgs)
             out.append(line)
+        # a producer that has been UP for a while (10.5 s, idle) before its sink breaks the connection for the first time: reconnecting is
+        # not something that only works during the first seconds of a producer's life
+        for i in range(1 if tier == "quick" else 3):
+            retry = rng.choice([1, 2])
+            faults = [(rng.randrange(2, 6), rng.choice([0, 1]), 0)]
+            msgs = [self.rand_msg(rng, j) for j in range(40)]
+            line = "producer tcp@10500 %d 3 F %s M %s" % (retry, " ".join("%d %d %d" % f for f in faults), " ".join(hx(m) for m in msgs))
+            self.meta[line] = ("tcp", retry, 3, faults, msgs)
+            out.append(line)
         # a BURST towards a udp sink: 40 messages of 1-3 kB handed over at once (more than one datagram can carry, more than any buffer a
         # writer might put in front of the socket): one datagram per message, each exactly the message and a newline
         for i in range(2 if tier == "quick" else 10):
